@@ -10,7 +10,7 @@ from pathlib import Path
 
 import numpy as np
 
-DTYPES = {"f8": np.float64, "f4": np.float32, "i4": np.int32, "i8": np.int64}
+DTYPES = {"f8": np.float64, "f4": np.float32, "i4": np.int32, "i8": np.int64, "i2": np.int16, "i1": np.int8, "u1": np.uint8, "u2": np.uint16, "u4": np.uint32, "f2": np.float16}
 
 
 def table_columns(table: dict):
